@@ -2,7 +2,7 @@
    Models: Model/Rebalance.v (notifiers, timer, lock, phases at callback granularity) and, for the closed
    window, Model/Stream.v.  Tie to /repo: Corr/CorrC11.v (the real stream.Rebalance under held lifecycle
    callbacks) and Corr/CorrStream.v (RebClose / RebOpen histories). *)
-From Verif Require Import Base.Prelude Base.Bytes Model.Rebalance Proofs.RebalanceProofs Model.Stream Proofs.StreamProofs Proofs.ObserverProofs.
+From Verif Require Import Base.Prelude Base.Bytes Model.Rebalance Proofs.RebalanceProofs Model.Stream Proofs.StreamProofs Proofs.ObserverProofs Model.SerialClose Proofs.SerialCloseProofs.
 
 (* lifecycle callbacks are emitted in properly bracketed order, for every schedule of notifications, close
    completions, timer firings, reopen completions and deferred timers *)
@@ -76,3 +76,28 @@ Proof.
   intros s vb ob F O B. unfold step. rewrite F, O, B. cbn. destruct (s_obs s vb); [|discriminate]. intros [= <-]. reflexivity.
 Qed.
 Print Assumptions C11_close_closes_observers.
+
+(* --- servers older than 5.5.0: the serial close sweep (Model/SerialClose.v) --- *)
+
+(* "a rebalance never stops the client", at the level of the end-of-session signals: whatever the number of vBuckets and
+   wherever the scheduler puts the steps of the wait() goroutines -- as long as the one of the old session runs at least
+   once during the rebalance delay -- after the cycle the client is not stopped, no signal is left behind for the wait()
+   of the reopened stream, exactly one wait() is waiting, and the session is as after a fresh Open(). Holds of the code
+   after fix K15 (5d885dd). *)
+Theorem C11_serial_close_keeps_running : forall n A W1 W2 W3 W4,
+  sweep_steps A -> waits W1 -> waits W2 -> W2 <> [] -> waits W3 -> waits W4 ->
+  let s := sc_run true (sc_streaming n)
+             ([SweepStart] ++ A ++ [SweepEnd] ++ W1 ++ [CloseTail] ++ W2 ++ [Reopen n] ++ W3 ++ [BalOff] ++ W4) in
+  sc_stopped s = false /\ sc_sig_end s = 0%nat /\ sc_sig_close s = 0%nat /\ sc_waiters s = 1%nat /\ sc_active s = n /\
+  sc_balancing s = false /\ sc_fin_end s = false /\ sc_fin_close s = false.
+Proof. exact fixed_cycle_keeps_running. Qed.
+Print Assumptions C11_serial_close_keeps_running.
+
+(* the witness of K15: a schedule of exactly that shape on which the code before the fix stops the client (the ends of
+   the sweep post "finished by end events", close() posts "finished by close" before the flag is set, the second signal
+   survives the reopen); the repaired code keeps running on it *)
+Example C11_serial_close_K15_witness :
+  k15_schedule = [SweepStart] ++ [SweepVb; SweepVb] ++ [SweepEnd] ++ [] ++ [CloseTail] ++ [WaitTake true] ++ [Reopen 2] ++ [] ++ [BalOff] ++ [WaitTake false] /\
+  sc_stopped (sc_run false (sc_streaming 2) k15_schedule) = true /\
+  sc_stopped (sc_run true (sc_streaming 2) k15_schedule) = false.
+Proof. split; [reflexivity|split; vm_compute; reflexivity]. Qed.
